@@ -130,3 +130,11 @@ package absnfs
 //@ prop C05 C08
 //@ modifies nothing
 //@ ensures [no-op] isnil(result)
+
+// ---- the table's state is protected by its RWMutex: whenever a function takes the lock AGAIN after having released
+// it (a read-locked probe followed by a write-locked insert, say), what it saw before may have changed - only the
+// representation invariant is known. A check-then-insert that is not re-validated under the second critical section
+// therefore cannot establish the invariant (two live handles for one path). Added after a seeded read-lock fast path
+// in Allocate, correct in every sequential history, was not detected.
+//@ also FileHandleMap.Allocate
+//@ reacquire fm.RWMutex : mapof(fm.handles), mapof(fm.pathHandles), fm.nextHandle, heapSet ; fmInv(fm) && issuedInv(fm) && fm.nextHandle < 18446744073709551615
